@@ -97,3 +97,11 @@ impl Deque {
         }
     }
 }
+
+#[cfg(feature = "h2_verif")]
+impl<T> Buffer<T> {
+    /// Number of buffered slots (verification statistics).
+    pub(super) fn verif_len(&self) -> usize {
+        self.slab.len()
+    }
+}
